@@ -241,63 +241,70 @@ theorem noDupNames_of_everyNode (q : Entry → Bool) (hq : ∀ x, q x = true →
 theorem noDupNames_of_keysUnique (e : Entry) (h : KeysUnique e) : NoDupNames e :=
   noDupNames_of_everyNode keysUniqueHere (fun _ h => h) e h
 
-theorem keysUnique_iff (e : Entry) : KeysUnique e ↔ NoDupNames e ∧ everyNode (fun x => decide (x.inp.length ≤ 1) && decide (x.out.length ≤ 1)) e = true := by
+theorem keysUnique_iff (e : Entry) : KeysUnique e ↔
+    NoDupNames e ∧ everyNode (fun x => decide (x.inp.length ≤ 1) && decide (x.out.length ≤ 1)) e = true := by
   induction e using entry_ind with
   | h d c i o hc hi ho =>
     unfold KeysUnique at hc hi ho ⊢
     rw [everyNode_mk, everyNode_mk, noDupNames_mk, keysUniqueHere_iff]
-    simp only [Entry.inp, Entry.out, Bool.and_eq_true, decide_eq_true_eq]
     constructor
     · rintro ⟨⟨h1, h2, h3⟩, h4, h5, h6⟩
-      exact ⟨⟨h1, fun x hx => ((hc x hx).1 (h4 x hx)).1, fun x hx => ((hi x hx).1 (h5 x hx)).1,
-        fun x hx => ((ho x hx).1 (h6 x hx)).1⟩, ⟨h2, h3⟩, fun x hx => ((hc x hx).1 (h4 x hx)).2,
+      refine ⟨⟨h1, fun x hx => ((hc x hx).1 (h4 x hx)).1, fun x hx => ((hi x hx).1 (h5 x hx)).1,
+        fun x hx => ((ho x hx).1 (h6 x hx)).1⟩, ?_, fun x hx => ((hc x hx).1 (h4 x hx)).2,
         fun x hx => ((hi x hx).1 (h5 x hx)).2, fun x hx => ((ho x hx).1 (h6 x hx)).2⟩
-    · rintro ⟨⟨h1, h4, h5, h6⟩, ⟨h2, h3⟩, k4, k5, k6⟩
-      exact ⟨⟨h1, h2, h3⟩, fun x hx => (hc x hx).2 ⟨h4 x hx, k4 x hx⟩, fun x hx => (hi x hx).2 ⟨h5 x hx, k5 x hx⟩,
-        fun x hx => (ho x hx).2 ⟨h6 x hx, k6 x hx⟩⟩
+      show (decide (i.length ≤ 1) && decide (o.length ≤ 1)) = true
+      rw [Bool.and_eq_true]; exact ⟨decide_eq_true h2, decide_eq_true h3⟩
+    · rintro ⟨⟨h1, h4, h5, h6⟩, h23, k4, k5, k6⟩
+      have h23' : (decide (i.length ≤ 1) && decide (o.length ≤ 1)) = true := h23
+      rw [Bool.and_eq_true] at h23'
+      exact ⟨⟨h1, of_decide_eq_true h23'.1, of_decide_eq_true h23'.2⟩, fun x hx => (hc x hx).2 ⟨h4 x hx, k4 x hx⟩,
+        fun x hx => (hi x hx).2 ⟨h5 x hx, k5 x hx⟩, fun x hx => (ho x hx).2 ⟨h6 x hx, k6 x hx⟩⟩
 
 theorem wfq_keysUnique (x : Entry) (h : wfq x = true) : keysUniqueHere x = true := by
   simp only [wfq, Bool.and_eq_true] at h; exact h.1.1
 
 /-- `merge` keeps sibling names distinct, whatever it is given: a child whose name is taken is
 refused (with a `duplicate-node` error), so no collision can make two siblings share a name. -/
+theorem noDupNames_withD (b : Entry) (f : EData → EData) (hb : NoDupNames b) : NoDupNames (b.withD f) := by
+  cases b with | mk d c i o => simp only [Entry.withD]; rw [noDupNames_mk] at hb ⊢; exact hb
+
 theorem noDupNames_merge (e : Entry) (ns : Option String) (oe : Entry) (he : NoDupNames e)
     (ho : ∀ c ∈ oe.dir, NoDupNames c) : NoDupNames (e.merge ns oe) := by
-  have hstamp : ∀ v : Entry, NoDupNames v → NoDupNames (match ns with
-      | some n => v.withD fun d => { d with ns := some n }
-      | none => v) := by
-    intro v hv
-    cases ns with
-    | none => exact hv
-    | some n => cases v with | mk d c i o => simp only [Entry.withD]; rw [noDupNames_mk] at hv ⊢; exact hv
-  have hwd : ∀ (b : Entry) (f : EData → EData), NoDupNames b → NoDupNames (b.withD f) := by
-    intro b f hb; cases b with | mk d c i o => simp only [Entry.withD]; rw [noDupNames_mk] at hb ⊢; exact hb
+  have step : ∀ (stamp : Entry → Entry) (x : Err), (∀ v, NoDupNames v → NoDupNames (stamp v)) → ∀ b v, v ∈ oe.dir →
+      NoDupNames b → NoDupNames (match b.child? (stamp v).name with
+        | some _ => b.addErr x
+        | none => b.withDir (b.dir ++ [stamp v])) := by
+    intro stamp x h1 b v hv hb
+    split
+    · exact noDupNames_withD _ _ hb
+    · rename_i hk
+      have hv' := h1 v (ho v hv)
+      generalize stamp v = w at hk hv' ⊢
+      cases b with | mk d c i o =>
+      simp only [Entry.withDir, Entry.dir]
+      rw [noDupNames_mk] at hb ⊢
+      refine ⟨?_, ?_, hb.2.2⟩
+      · rw [List.map_append, List.nodup_append]
+        refine ⟨hb.1, by simp, ?_⟩
+        intro a ha b' hb'
+        simp only [List.map_cons, List.map_nil, List.mem_singleton] at hb'
+        subst hb'
+        obtain ⟨x, hx, rfl⟩ := List.mem_map.mp ha
+        exact child?_none _ _ hk x hx
+      · intro x hx
+        rcases List.mem_append.mp hx with hx | hx
+        · exact hb.2.1 x hx
+        · simp only [List.mem_singleton] at hx; subst hx; exact hv'
   unfold Entry.merge
-  refine foldl_inv NoDupNames _ _ _ (hwd _ _ he) ?_
-  intro b v hv hb
-  dsimp only
-  split
-  · exact hwd _ _ hb
-  · rename_i hk
-    have hv' := hstamp v (ho v hv)
-    generalize (match ns with
-      | some n => v.withD fun d => { d with ns := some n }
-      | none => v) = w at hk hv' ⊢
-    cases b with | mk d c i o =>
-    simp only [Entry.withDir, Entry.dir]
-    rw [noDupNames_mk] at hb ⊢
-    refine ⟨?_, ?_, hb.2.2⟩
-    · rw [List.map_append, List.nodup_append]
-      refine ⟨hb.1, by simp, ?_⟩
-      intro a ha b' hb'
-      simp only [List.map_cons, List.map_nil, List.mem_singleton] at hb'
-      subst hb'
-      obtain ⟨x, hx, rfl⟩ := List.mem_map.mp ha
-      exact child?_none _ _ hk x hx
-    · intro x hx
-      rcases List.mem_append.mp hx with hx | hx
-      · exact hb.2.1 x hx
-      · simp only [List.mem_singleton] at hx; subst hx; exact hv'
+  cases ns with
+  | none =>
+    refine foldl_inv NoDupNames _ _ _ (noDupNames_withD _ _ he) ?_
+    intro b v hv hb
+    exact step id _ (fun v hv => hv) b v hv hb
+  | some n =>
+    refine foldl_inv NoDupNames _ _ _ (noDupNames_withD _ _ he) ?_
+    intro b v hv hb
+    exact step (fun v => v.withD fun d => { d with ns := some n }) _ (fun v hv => noDupNames_withD _ _ hv) b v hv hb
 
 theorem updateAt_name' (g : Entry → Entry) (hg : ∀ y, (g y).name = y.name) : ∀ (p : Path) (e : Entry),
     (e.updateAt p g).name = e.name
@@ -408,11 +415,108 @@ theorem noDupNames_loop (reg : Registry) (opts : Opts) (plug : Plug) (fuel : Nat
 FixChoice): the forest the deviations are applied to. -/
 theorem noDupNames_preDev (reg : Registry) (opts : Opts) (plug : Plug) :
     ∀ t ∈ (preDev reg opts plug).forest.trees, NoErrors t.2 → NoDupNames t.2 := by
-  have hq := localOK_wfq (envOf reg opts plug)
-  have h1 := ainv_preDev reg opts plug hq (wfqB_fixChoice false |> fun h e he => by
-    have : everyNode (wfqB false) e = true := everyNode_imp _ _ (fun x hx => by simp [wfqB, hx]) _ he
-    exact everyNode_imp _ _ (fun x hx => by simpa [wfqB] using hx) _ (h e this))
+  have hq := localOK_wfqB (envOf reg opts plug) false (fun h => absurd h (by simp))
+  have h1 := ainv_preDev reg opts plug hq (wfqB_fixChoice false)
   intro t ht hne
-  exact noDupNames_of_everyNode wfq wfq_keysUnique _ ((h1.trees t ht).1.2 hne)
+  exact noDupNames_of_everyNode (wfqB false) (wfqB_keysUnique false) _ ((h1.trees t ht).1.2 hne)
+
+/-! ### the cache holds the tree of every converted (sub)module -/
+
+/-- Every loaded statement is a `module` or `submodule` statement (the AST builder returns nothing
+else at the top level of a text). -/
+def ModsAreModules (reg : Registry) : Prop := ∀ m ∈ reg.mods, isModKw m.stmt = true
+
+instance (reg : Registry) : Decidable (ModsAreModules reg) := by unfold ModsAreModules; infer_instance
+
+def ckeys (st : TState) : List Nat := st.cache.map (·.1)
+
+/-- The module cache only grows. -/
+def cacheMono (env : Env) : RelFrame env where
+  R _ st st' := ∀ k ∈ ckeys st, k ∈ ckeys st'
+  refl _ _ _ h := h
+  trans _ _ _ _ h1 h2 k hk := h2 k (h1 k hk)
+  weaken _ _ _ _ h := h
+  merged _ _ _ _ h := h
+  gcache _ _ _ _ h := h
+  augs _ _ _ _ h := h
+  cache root scope n v st st1 e _ _ _ _ h k hk := by
+    simp only [ckeys, List.map_append, List.mem_append]
+    exact Or.inl (h k hk)
+
+theorem entryFuel_succ (reg : Registry) : ∃ k, entryFuel reg = k + 1 := by
+  rw [Fuel.entryFuel_eq]; exact ⟨_, rfl⟩
+
+/-- A top-level conversion of a (sub)module statement leaves its entry in the cache. -/
+theorem module_cached (env : Env) (fuel : Nat) (rec : Rec) (root : Mod) (scope : List Stmt) (n : Stmt) (st : TState)
+    (hm : isModKw n = true) : root.seq ∈ ckeys (toEntryBody env fuel rec root scope n [] st).2 := by
+  have hm' : (n.kw == "module" || n.kw == "submodule") = true := hm
+  have hg : (n.kw == "grouping") = false := by
+    simp only [Bool.or_eq_true, beq_iff_eq] at hm'
+    rcases hm' with h | h <;> simp [h]
+  have hl : (n.kw == "leaf") = false := by
+    simp only [Bool.or_eq_true, beq_iff_eq] at hm'
+    rcases hm' with h | h <;> simp [h]
+  have hll : (n.kw == "leaf-list") = false := by
+    simp only [Bool.or_eq_true, beq_iff_eq] at hm'
+    rcases hm' with h | h <;> simp [h]
+  have hu : (n.kw == "uses") = false := by
+    simp only [Bool.or_eq_true, beq_iff_eq] at hm'
+    rcases hm' with h | h <;> simp [h]
+  unfold toEntryBody
+  simp only [hm', hg, hl, hll, hu, if_true, Bool.false_eq_true, if_false, List.contains_nil, Bool.and_false, Bool.true_or]
+  split
+  · rename_i k e hfind
+    simp only [ckeys, List.mem_map]
+    exact ⟨(k, e), List.mem_of_find?_eq_some hfind, by simpa using List.find?_some hfind⟩
+  · unfold dirBody
+    simp only [if_true, ckeys, List.map_append, List.mem_append, List.map_cons, List.map_nil, List.mem_singleton]
+    exact Or.inr trivial
+
+theorem tstate_cache_all (reg : Registry) (opts : Opts) (plug : Plug) (hmods : ModsAreModules reg) :
+    ∀ m ∈ keyOrder reg, m.seq ∈ ckeys (tstate reg opts plug) := by
+  obtain ⟨fuel, hfuel⟩ := entryFuel_succ reg
+  have gen : ∀ (l : List Mod) (st : TState), (∀ m ∈ l, m ∈ reg.mods) →
+      (∀ k ∈ ckeys st, k ∈ ckeys (l.foldl (fun st m => (toEntry (envOf reg opts plug) (entryFuel reg) m [] m.stmt [] st).2) st)) ∧
+      ∀ m ∈ l, m.seq ∈ ckeys (l.foldl (fun st m => (toEntry (envOf reg opts plug) (entryFuel reg) m [] m.stmt [] st).2) st) := by
+    intro l
+    induction l with
+    | nil => intro st _; exact ⟨fun k h => h, fun m h => by cases h⟩
+    | cons m l ih =>
+      intro st hl
+      simp only [List.foldl_cons]
+      have hm : m ∈ reg.mods := hl m (by simp)
+      obtain ⟨i1, i2⟩ := ih (toEntry (envOf reg opts plug) (entryFuel reg) m [] m.stmt [] st).2 (fun x hx => hl x (by simp [hx]))
+      have hmono := toEntry_rel (cacheMono (envOf reg opts plug)) (entryFuel reg) m [] m.stmt [] st (InvT.ofMod hm)
+      refine ⟨fun k hk => i1 k (hmono k hk), ?_⟩
+      intro x hx
+      rcases List.mem_cons.mp hx with hx | hx
+      · subst hx
+        apply i1
+        rw [hfuel, toEntry_succ]
+        exact module_cached _ _ _ _ _ _ _ (hmods x hm)
+      · exact i2 x hx
+  exact (gen (keyOrder reg) {} (fun m hm => keyOrder_mem reg m hm)).2
+
+/-- Every module and submodule bound in one of the two tables is in the conversion order. -/
+theorem allMods_keyOrder (reg : Registry) (m : Mod) (hm : m ∈ allMods reg) : ∃ m' ∈ keyOrder reg, m'.seq = m.seq := by
+  simp only [allMods, Registry.distinctModules, Registry.distinctSubs, List.mem_append, List.mem_filter,
+    List.any_eq_true] at hm
+  unfold keyOrder
+  simp only [List.mem_append, List.mem_filterMap, Tree.mem_sortBy]
+  rcases hm with ⟨h1, kv, h2, h3⟩ | ⟨h1, kv, h2, h3⟩
+  · obtain ⟨m', hm', hs⟩ := byId_some_of_mem reg m h1
+    have : kv.2 = m.seq := by simpa using h3
+    exact ⟨m', Or.inl ⟨kv, h2, by rw [this]; exact hm'⟩, hs⟩
+  · obtain ⟨m', hm', hs⟩ := byId_some_of_mem reg m h1
+    have : kv.2 = m.seq := by simpa using h3
+    exact ⟨m', Or.inr ⟨kv, h2, by rw [this]; exact hm'⟩, hs⟩
+
+/-- The tree of every (sub)module exists when the augment phase starts. -/
+theorem trees_all_pstate0 (reg : Registry) (opts : Opts) (plug : Plug) (hmods : ModsAreModules reg) :
+    ∀ m ∈ allMods reg, ((pstate0 reg opts plug).forest.tree? m.seq).isSome = true := by
+  intro m hm
+  obtain ⟨m', hm', hs⟩ := allMods_keyOrder reg m hm
+  rw [tree?_isSome, ← hs]
+  exact tstate_cache_all reg opts plug hmods m' hm'
 
 end Goyang.Lemmas.Bridge
